@@ -9,7 +9,8 @@ CLAIMED = {
    text=('Proved for all inputs: the consume/idle/add_energy kernels of both powertrains (regenerated from bev.py, ice.py, tabular_powercurve.py, vehicle.py '
          'on every run) keep the level in [0, capacity], book exactly the amount removed/added, expend strictly positively for positive distance/time, '
          'never lower the level when charging and never add more than rate x duration for ANY step length and curve step (induction over the integrator loop). '
-         'The step-level running balance over whole histories is checked by correspondence + monitors (not yet a theorem: labelled partial).'),
+         'Proved over ALL finite histories of step operations, any controller (C04_energy_accounted_over_histories, vehicle frame theorem): every vehicle keeps its id, powertrain and membership and its stored energy always equals initial + gained - expended. '
+         'PARTIAL: that the level stays in [0, capacity] along whole histories is proved per kernel (each consume / idle / add_energy preserves the bounds for the vehicle\'s own powertrain) and checked along histories by correspondence + the energy monitor; the lift needs non-negativity of every route distance and plug rate carried in the state, which is not stated as an invariant.'),
    note=COMMON_NOTE + ' Hypotheses train_ok/curve_ok (positive sorted tables) are checked on every generated mechatronics.',
    technique='Coq proof over translated kernels (Q arithmetic, induction on loop fuel) + differential correspondence of the step model'),
 }
